@@ -100,7 +100,11 @@ Fixpoint encode (fuel : nat) (nmz : names) (ens : option str) (s : schema) (v : 
   | VLong z | VTimestampMillis z | VTimestampMicros z | VTimestampNanos z
   | VLocalTimestampMillis z | VLocalTimestampMicros z | VLocalTimestampNanos z
   | VTimeMicros z => Ok (enc_long z)
-  | VFloat x => Ok (le_bytes 4 x)
+  | VFloat x =>
+    match s with
+    | SDouble => Ok (le_bytes 8 (f32_to_f64 x))      (* widened, encode.rs Value::Float arm *)
+    | _ => Ok (le_bytes 4 x)
+    end
   | VDouble x => Ok (le_bytes 8 x)
   | VDecimal d =>
     match s with
@@ -233,6 +237,19 @@ Fixpoint dec_items {A} (d : bytes -> res (A * bytes)) (n : nat) (bs : bytes)
   | S n' => do (x, r) <- d bs; do (xs, r') <- dec_items d n' r; Ok (x :: xs, r')
   end.
 
+(* the same loop with the count in binary: equal to dec_items (Proofs/CodecP.dec_count_spec) but it
+   never builds a unary number, so a hostile count costs nothing before the first item fails *)
+Fixpoint dec_pos {A} (d : bytes -> res (A * bytes)) (p : positive) (bs : bytes)
+  : res (list A * bytes) :=
+  match p with
+  | xH => do (x, r) <- d bs; Ok ([x], r)
+  | xO q => do (xs, r) <- dec_pos d q bs; do (ys, r') <- dec_pos d q r; Ok (xs ++ ys, r')
+  | xI q => do (x, r0) <- d bs; do (xs, r) <- dec_pos d q r0; do (ys, r') <- dec_pos d q r;
+            Ok (x :: xs ++ ys, r')
+  end.
+Definition dec_count {A} (d : bytes -> res (A * bytes)) (n : N) (bs : bytes) : res (list A * bytes) :=
+  match n with N0 => Ok ([], bs) | Npos p => dec_pos d p bs end.
+
 (* the block loop of the array and map arms, decode.rs:232-292.  [g] is fuel for the number of
    blocks (every block header consumes at least one byte); [have] = items.len() so far. *)
 Fixpoint dec_blocks {A} (c : cfg) (esize : N) (d : bytes -> res (A * bytes)) (g : nat)
@@ -243,7 +260,7 @@ Fixpoint dec_blocks {A} (c : cfg) (esize : N) (d : bytes -> res (A * bytes)) (g 
     do (n, r) <- dec_seq_len c bs;
     if n =? 0 then Ok ([], r)
     else if safe_coll c esize (have + n) then
-      do (xs, r') <- dec_items d (N.to_nat n) r;
+      do (xs, r') <- dec_count d n r;
       do (ys, r'') <- dec_blocks c esize d g' (have + n) r';
       Ok (xs ++ ys, r'')
     else Err
